@@ -389,7 +389,7 @@ class Charge:
         """Convert into a `DataArray` object."""
         import xarray as xr
 
-        data_2d: np.ndarray = self.array
+        data_2d: np.ndarray = self.array.copy()
         num_rows, num_cols = data_2d.shape
 
         rows = xr.DataArray(
